@@ -35,6 +35,15 @@ func main() {
 		for _, id := range ids {
 			fmt.Println(id)
 		}
+	case "racepass":
+		// free-running execution of the C07 scenario bodies; meaningful in the binary built with -race
+		rounds := 30
+		if len(os.Args) > 2 && os.Args[2] == "thorough" {
+			rounds = 300
+		}
+		n := checks.RacePass(rounds)
+		fmt.Printf("racepass: %d free-running executions\n", n)
+		drv.Cleanup()
 	case "crashworker":
 		// crashworker <backend> <dir> <history.json> <kill-at>
 		if len(os.Args) < 6 {
